@@ -1,6 +1,6 @@
 CONSTANTS
   G = 2
-  Ws = {1, 2, 3}
+  Ws = {2, 3}
   D <- DQuick
   Als = {0, 1, 2}
   HasFill = TRUE
